@@ -36,32 +36,53 @@ def expand_fn(F):
 
 
 def row_closure(F, ex):
-    """The per-row closure: the nested closure that clones the scenario and returns Result<Scenario, ExpandExamplesError>."""
-    ks = [nb for nb in F.nested(ex) if nb.kind == "Closure" and nb.locals[0] == "std::result::Result<gherkin::Scenario, feature::ExpandExamplesError>"]
+    """The per-row routine: the closure — or private helper fn — of the expansion that clones the scenario and returns
+    Result<Scenario, ExpandExamplesError>."""
+    ks = [nb for nb in roles.family(F, ex) if nb.kind in ("Closure", "Fn", "AssocFn") and nb is not ex and
+          nb.locals[0] == "std::result::Result<gherkin::Scenario, feature::ExpandExamplesError>"]
     if len(ks) != 1:
-        raise Unverifiable(f"per-row closure: {len(ks)}")
+        raise Unverifiable(f"per-row routine: {len(ks)}")
     return ks[0]
 
 
 def subst_closure(F, rk):
-    ks = [nb for nb in F.nested(rk) if nb is not rk and nb.kind == "Closure" and nb.locals[0] == "std::result::Result<std::string::String, feature::ExpandExamplesError>"
-          and F.parent_body(nb) is rk]
+    """The substitution routine: closure or private helper fn returning Result<String, ExpandExamplesError>."""
+    ex = expand_fn(F)
+    ks = [nb for nb in roles.family(F, ex) if nb.kind in ("Closure", "Fn", "AssocFn") and
+          nb.locals[0] == "std::result::Result<std::string::String, feature::ExpandExamplesError>" and
+          any(True for _ in nb.calls(lambda t: callee_is(t, r"Regex::replace_all$")))]
     if len(ks) != 1:
-        raise Unverifiable(f"substitution closure: {len(ks)}")
+        raise Unverifiable(f"substitution routine: {len(ks)}")
     return ks[0]
+
+
+def subst_calls(F, rk, sk):
+    """Call sites of the substitution routine in the per-row routine (closure call or direct call)."""
+    out = []
+    for s, t in rk.calls():
+        if callee_is(t, r"ops::Fn(Mut)?::call(_mut)?$") and A.closure_of_operand(F, rk, t["args"][0]) is sk:
+            out.append((s, t))
+        elif F.callee_body(t, rk.crate) is sk:
+            out.append((s, t))
+    return out
+
+
+def subst_stop(sk):
+    return [r"ops::Fn(Mut)?::call(_mut)?$", "^" + re.escape(sk.name) + "$"]
 
 
 def r1(F, R):
     ex = expand_fn(F)
     rk = row_closure(F, ex)
     sk = subst_closure(F, rk)
-    calls = [(s, t) for s, t in rk.calls(lambda t: callee_is(t, r"ops::Fn(Mut)?::call(_mut)?$") and A.closure_of_operand(F, rk, t["args"][0]) is sk)]
-    R.check(len(calls) == 2, "substitution-call-sites", rk, "name + per-value loop", f"{len(calls)} calls of the substitution closure")
+    calls = subst_calls(F, rk, sk)
+    STOP = subst_stop(sk)
+    R.check(len(calls) == 2, "substitution-call-sites", rk, "name + per-value loop", f"{len(calls)} calls of the substitution routine")
     # name sink
     name_w = [(s, st) for s, st in rk.assigns(lambda st: st["pl"]["p"] and place_fields(st["pl"])[-1:] == [("gherkin::Scenario", "name")])]
     ok_name = False
     for s, st in name_w:
-        sl = A.slice_back(rk, A.rvalue_operands(st["rv"]), stop_calls=[r"ops::Fn(Mut)?::call(_mut)?$"])
+        sl = A.slice_back(rk, A.rvalue_operands(st["rv"]), stop_calls=STOP)
         if any(cs in [c[0] for c in calls] for cs, _ in sl.calls) and sl.has_call(r"Try::branch$"):
             ok_name = True
     R.check(ok_name, "sink/scenario-name", name_w[0][0] if name_w else rk, "expanded.name = replace_templates(name)?", "the scenario name is not substituted")
@@ -69,7 +90,7 @@ def r1(F, R):
     dw = [(s, st) for s, st in rk.assigns(lambda st: st["pl"]["p"] == ["*"] and rk.locals[st["pl"]["l"]] == "&mut std::string::String")]
     ok_loop = False
     for s, st in dw:
-        sl = A.slice_back(rk, A.rvalue_operands(st["rv"]), stop_calls=[r"ops::Fn(Mut)?::call(_mut)?$"])
+        sl = A.slice_back(rk, A.rvalue_operands(st["rv"]), stop_calls=STOP)
         if any(cs in [c[0] for c in calls] for cs, _ in sl.calls) and sl.has_call(r"Try::branch$"):
             ok_loop = True
             # where does the &mut String come from: next() of the chain
@@ -77,10 +98,10 @@ def r1(F, R):
             nexts = src.calls_matching(r"Iterator::next$")
             cover = set()
             if nexts:
-                it = A.slice_back(rk, [nexts[0][1]["args"][0]], stop_calls=[r"ops::Fn(Mut)?::call(_mut)?$", r"Iterator::next$"])
+                it = A.slice_back(rk, [nexts[0][1]["args"][0]], stop_calls=STOP + [r"Iterator::next$"])
                 leaves = T.chain_leaves(F, rk, _into_iter_src(rk, nexts[0][1]["args"][0]))
                 for b2, lo in leaves:
-                    lsl = A.slice_back(b2, [lo], stop_calls=[r"Iterator::chain$", r"ops::Fn(Mut)?::call(_mut)?$", r"Iterator::next$"])
+                    lsl = A.slice_back(b2, [lo], stop_calls=[r"Iterator::chain$", r"Iterator::next$"] + STOP)
                     fs = {(o, n) for o, n in lsl.fields if o in ("gherkin::Step", "gherkin::Table")}
                     for _, rv in lsl.aggs:
                         if rv.get("agg") == "closure":
@@ -120,7 +141,7 @@ def r2(F, R):
         sl = A.slice_back(sk, [ra[0][1]["args"][1]])
         R.check(bool(sl.params), "replaces-in-given-text", ra[0][0], "", "replace_all is not applied to the given text")
     # template regex constant
-    regs = [b for b in F.crate_bodies() if b.name.startswith("feature::expand_scenario::TEMPLATE_REGEX")]
+    regs = [b for b in F.crate_bodies() if re.match(r"^feature::(\w+::)*TEMPLATE_REGEX\b", b.name)]
     pats = [const_str(op) for b in regs for _, st in b.assigns() for op in A.rvalue_operands(st["rv"]) if const_str(op) is not None]
     pats += [const_str(a) for b in regs for _, t in b.calls(lambda t: callee_is(t, r"Regex::new$")) for a in t["args"] if const_str(a) is not None]
     R.check(len(pats) == 1 and re.fullmatch(r"<\(\[\^>\\+s\]\+\)>", pats[0]) is not None, "template-pattern", regs[0] if regs else None, "`<([^>\\s]+)>`", f"template regex is {pats}")
@@ -140,24 +161,46 @@ def r3(F, R):
     ds = A.deep_slice(F, nb, [f["name"]])
     R.check(ds.has_call(r"Captures::<.*>::get$", r"Captures.*::get$") and ds.has_call(r"Match::<.*>::as_str$", r"Match.*::as_str$"), "error-names-placeholder", s,
             "name = the captured placeholder", "the error does not name the unresolved placeholder")
-    # built in the fallback (None handler) of the column lookup
-    cc = A.closure_creation(F, nb)
+    # the error is recorded exactly when the column lookup finds nothing — on the replacer closure's path table
+    from . import deep as D
+    ra = [(s2, t2) for s2, t2 in sk.calls(lambda t2: callee_is(t2, r"Regex::replace_all$"))]
+    rp = A.closure_of_operand(F, sk, ra[0][1]["args"][2]) if len(ra) == 1 and len(ra[0][1]["args"]) > 2 else None
     ok_fb = False
-    if cc:
-        P, cs, cst = cc
-        uses, _ = A.forward_uses(P, cst["pl"]["l"])
-        for us, ut, idx in uses:
-            if callee_is(ut, r"Option::<.*>::unwrap_or_else$") and idx == 1:
-                recv = A.slice_back(P, [ut["args"][0]])
-                ok_fb = recv.has_call(r"Iterator::find_map$", r"Iterator::find$")
+    if rp is not None:
+        rows = D.Deep(F, rp, max_paths=400).run()
+        ok_fb = bool(rows)
+        seen_err = 0
+        for p in rows:
+            if p.cut:
+                continue
+            look = [o for a, o in p.conds if a[0] == "discr" and a[1][0] == "call" and re.search(r"Iterator::(find_map|find|position)$", a[1][1])]
+            errw = [e for e in p.effects if e[0] == "write" and D.mentions(e[2], lambda x: D.is_variant(x, "feature::ExpandExamplesError"))]
+            if len(look) != 1:
+                ok_fb = False
+                continue
+            if errw:
+                seen_err += 1
+            ok_fb = ok_fb and (bool(errw) == (look[0] == "None"))
+        ok_fb = ok_fb and seen_err >= 1
     R.check(ok_fb, "error-only-if-column-missing", s, "lookup.unwrap_or_else(|| { err = Some(..); \"\" })", "the error is not raised exactly when the column lookup fails")
-    # the substitution returns Err when the error was recorded
-    moe = [(s2, t2) for s2, t2 in sk.calls(lambda t2: callee_is(t2, r"Option::<.*>::map_or_else$") and sk.locals[t2["dest"]["l"]].startswith("std::result::Result<std::string::String"))]
-    ok_ret = False
-    if len(moe) == 1:
-        errf = op_fn(moe[0][1]["args"][2])
-        ok_ret = bool(errf and (re.search(r"Result::(<.*>::)?Err$", errf.get("full", "")) or errf["path"].endswith("::Err")))
-    R.check(ok_ret, "error-propagates", moe[0][0] if moe else sk, "err.map_or_else(|| Ok(replaced), Err)", "a recorded error does not turn the substitution into Err")
+    # the substitution returns Err exactly when an error was recorded — on the substitution routine's path table
+    rows = D.Deep(F, sk, inline=False, max_paths=400).run()
+    ok_ret = bool(rows)
+    n_err = 0
+    for p in rows:
+        rec = [o for a, o in p.conds if a[0] == "discr" and a[1][0] == "havoc"]
+        is_err = D.is_variant(p.ret, "std::result::Result", "Err")
+        is_ok = D.is_variant(p.ret, "std::result::Result", "Ok")
+        if len(rec) != 1 or not (is_err or is_ok):
+            ok_ret = False
+            continue
+        if is_err:
+            n_err += 1
+            ok_ret = ok_ret and rec[0] == "Some" and D.mentions(p.ret, lambda x: x[0] == "havoc")
+        else:
+            ok_ret = ok_ret and rec[0] == "None" and D.mentions(p.ret, lambda x: x[0] == "call" and re.search(r"Regex::replace_all$", x[1]))
+    ok_ret = ok_ret and n_err >= 1
+    R.check(ok_ret, "error-propagates", sk, "err.map_or_else(|| Ok(replaced), Err)", "a recorded error does not turn the substitution into Err (or the replaced text is not what is returned)")
     # parser maps it
     conv = [b for b in F.crate_bodies() if (b.impl or {}).get("self_adt") == "parser::Error" and (b.impl or {}).get("trait") == "std::convert::From"
             and any("ExpandExamplesError" in ty for ty in b.locals[1:2])]
@@ -175,9 +218,7 @@ def r4(F, R):
     # adaptors in expand_scenario and its closures
     bad = []
     n = 0
-    for nb in F.nested(ex):
-        if nb is rk or F.parent_body(nb) is rk or (F.parent_body(nb) and F.parent_body(F.parent_body(nb)) is rk and False):
-            pass
+    for nb in roles.family(F, ex):
         for s, t in nb.calls():
             f = op_fn(t["func"])
             if f and f.get("trait", "").endswith(("Iterator", "Itertools", "DoubleEndedIterator")):
@@ -185,7 +226,7 @@ def r4(F, R):
                 n += 1
                 if nm in LOSSY and not (nm == "filter" and False):
                     bad.append((nm, s.loc))
-    R.check(not bad and n >= 8, "order-preserving-adaptors", ex, f"{n} iterator adaptors, none reordering or truncating", f"outline expansion iterates through {bad}")
+    R.check(not bad and n >= 4, "order-preserving-adaptors", ex, f"{n} iterator adaptors, none reordering or truncating", f"outline expansion iterates through {bad}")
     # tags appended after the outline's tags
     exts = [(s, t) for s, t in rk.calls(lambda t: callee_is(t, r"Extend.*::extend$", r"Vec::<.*>::extend$"))]
     ok_t = False
